@@ -100,6 +100,9 @@ Section SqlProofs.
   Lemma inv_reopen h : sql_inv h -> sql_inv (sql_reopen h).
   Proof. intros [Hs Hc]. split; cbn [sql_reopen q_rows q_cache]; [exact Hs|lia]. Qed.
 
+  Lemma inv_reopen_cfg h igs igd : sql_inv h -> sql_inv (sql_reopen_cfg h igs igd).
+  Proof. intros [Hs Hc]. split; cbn [sql_reopen_cfg q_rows q_cache]; [exact Hs|lia]. Qed.
+
   Theorem inv_run ops : forall h, sql_inv h -> sql_inv (fst (sql_run U h ops)).
   Proof.
     induction ops as [|o ops IH]; intros h Hi; cbn [sql_run]; [exact Hi|].
@@ -111,6 +114,7 @@ Section SqlProofs.
     - inversion E; subst. exact Hi.
     - inversion E; subst. apply inv_set_max. exact Hi.
     - inversion E; subst. apply inv_reopen. exact Hi.
+    - inversion E; subst. apply inv_reopen_cfg. exact Hi.
   Qed.
 
   Corollary reachable_sql_inv ops max igs igd : sql_inv (fst (sql_run U (sql_new max igs igd) ops)).
